@@ -497,6 +497,18 @@ Definition step (b : bits) (c : cfg) (ch : nat * nat) : cfg :=
       end
   end.
 Definition run (b : bits) (sched : list (nat * nat)) (c : cfg) : cfg := fold_left (step b) sched c.
+
+(* owner discipline: the same protocol in which a thread may ADDITIONALLY read the owner-private data (mutex::_queue)
+   whenever its pc is in the set `pk` (choice argument 99).  Used to show that extra plain accesses are harmless exactly
+   in owner context (TC / TU) and race in non-owner context (T0 = ready()/try_lock, TS = subscribe before its CAS). *)
+Definition peek_arg : nat := 99.
+Definition step_peek (pk : pc -> bool) (b : bits) (c : cfg) (ch : nat * nat) : cfg :=
+  if Nat.eqb (snd ch) peek_arg then
+    match nth_error (ths c) (fst ch) with
+    | Some (Th p tv) => if pk p then Cfg (ths c) (na_read tv (mm c) DATA) else c
+    | None => c end
+  else step b c ch.
+Definition run_peek (pk : pc -> bool) (b : bits) (sched : list (nat * nat)) (c : cfg) : cfg := fold_left (step_peek pk b) sched c.
 End P3.
 
 (* ================================================================================================
@@ -505,7 +517,7 @@ End P3.
    observation "CRASH" that no model output matches).  Supporting evidence only: the tie of C03 is the translator. *)
 Definition tsan_run (ops : list (list Z)) : list (list Z) :=
   map (fun op => match op with
-                 | [s; n] => if ((1 <=? s) && (s <=? 10) && (0 <=? n) && (n <=? 100000))%Z then [0%Z] else [(-1)%Z]
+                 | [s; n] => if ((1 <=? s) && (s <=? 11) && (0 <=? n) && (n <=? 100000))%Z then [0%Z] else [(-1)%Z]
                  | _ => [(-1)%Z] end) ops.
 Definition tsan_oracle (ops obs : list (list Z)) : bool :=
   (length ops =? length obs) &&
